@@ -109,10 +109,21 @@ def execute(cfgs):
     """-> list of (cfg, record)"""
     out = []
     batch = [(i, c) for i, c in enumerate(cfgs) if c["mode"] in ("in-process", "concurrent")]
-    inp = "\n".join(json.dumps(scen_json(c, i)) for i, c in batch) + "\n"
+    # primers: the shared process first meets labels that EXTEND and labels that are
+    # PREFIXES of the labels used below, so that the label cache (LabelCache!RetEqualsLabel:
+    # the slice returned for a label is that label, whatever was cached before) is exercised
+    # with a history the fresh processes do not have
+    primers = []
+    for circuit in sorted(set(c["circuit"] for _, c in batch)):
+        for lab in ("c18-" + circuit + "+ext", ("c18-" + circuit)[:-1]):
+            n, cap = SIZES["small"]
+            primers.append({"id": "primer", "program": program(n), "cap": cap, "label": lab, "pool": 1,
+                            "runs": 1, "concurrent": 0, "seeds": SEEDS[:1]})
+    inp = "\n".join([json.dumps(x) for x in primers] + [json.dumps(scen_json(c, i)) for i, c in batch]) + "\n"
     recs = vlib.read_ndjson_text(vlib.harness("determinism", [], stdin=inp, timeout=6000))
-    if len(recs) != len(batch):
-        raise vlib.ToolError("determinism: %d records for %d scenarios" % (len(recs), len(batch)))
+    if len(recs) != len(batch) + len(primers):
+        raise vlib.ToolError("determinism: %d records for %d scenarios" % (len(recs), len(batch) + len(primers)))
+    recs = recs[len(primers):]
     out += [(c, r) for (i, c), r in zip(batch, recs)]
     for i, c in enumerate(cfgs):
         if c["mode"] in ("in-process", "concurrent"):
